@@ -390,7 +390,7 @@ theorem prepareUnguarded_spec (hlt : SWO lt) (stb : Bool) (seqs : List (Seq α))
     (hs : ∀ l ∈ xsOf seqs, Sorted lt l) (hne : seqs ≠ []) :
     (∃ m, prepareUnguarded stb lt seqs = some (none, m) ∧ (xsOf seqs)[m]? = some []) ∨
     (∃ o mn ms, prepareUnguarded stb lt seqs = some (some o, ms) ∧ Shape stb lt mn ms (xsOf seqs) ∧
-      o + R stb lt mn ms (xsOf seqs) = totalSize seqs) := by
+      o + R stb lt mn ms (xsOf seqs) = totalSize seqs ∧ MinInv lt (xsOf seqs) mn ms) := by
   cases seqs with
   | nil => exact absurd rfl hne
   | cons s0 rest =>
@@ -416,7 +416,7 @@ theorem prepareUnguarded_spec (hlt : SWO lt) (stb : Bool) (seqs : List (Seq α))
       · right
         rw [hx] at inv
         rw [show ([s0.xs] : List (List α)).length = 1 from rfl] at hm
-        refine ⟨_, mn, ms, by simp only [prepareUnguarded, hv0, hm]; rfl, ?_, ?_⟩
+        refine ⟨_, mn, ms, by simp only [prepareUnguarded, hv0, hm]; rfl, ?_, ?_, inv⟩
         · obtain ⟨lm, hlm, hlm'⟩ := inv.hms
           have hmsl : ms < (xsOf (s0 :: rest)).length := by
             by_cases c : ms < (xsOf (s0 :: rest)).length
